@@ -218,7 +218,7 @@ func cmdCheck(args []string) int {
 		smtDir = filepath.Join(repoRoot, ".govc-smt", pf.ID)
 	}
 	os.RemoveAll(smtDir)
-	run := &checkRun{pf: &pf, tier: *tier, seed: seed, scratch: scratch}
+	run := &checkRun{pf: &pf, tier: *tier, seed: seed, scratch: scratch, timeout: timeout}
 	if *tier == "thorough" && !scratch {
 		run.mutation = runMutationCorpus(pf.ID, seed)
 	}
@@ -269,6 +269,7 @@ func cmdCheck(args []string) int {
 }
 
 type checkRun struct {
+	timeout  int
 	scratch  bool            // running on a scratch copy (mutation corpus): no evidence, no replays
 	mutation *mutationReport // thorough tier: result of the must-fail corpus
 	pf       *PropFile
@@ -459,6 +460,21 @@ func (r *checkRun) writeEvidenceFull(wall float64, all []*Obligation, proofObls,
 		"solver_time_s": solverTime, "covers": covers, "not_covered_clauses": r.pf.NotCovered, "undecided_functions": undecided,
 		"failed_obligations": failed,
 	}
+	// the five slowest proof obligations (solver seconds of the winning solver) and the budget:
+	// an obligation close to the budget is the one that would turn into a false alarm under load
+	var slow []*Obligation
+	for _, o := range all {
+		if o.Expect != "sat" && o.Result == "unsat" {
+			slow = append(slow, o)
+		}
+	}
+	sort.SliceStable(slow, func(i, j int) bool { return slow[i].TimeS > slow[j].TimeS })
+	var slowest []map[string]any
+	for i := 0; i < len(slow) && i < 5; i++ {
+		slowest = append(slowest, map[string]any{"obligation": slow[i].Name, "time_s": slow[i].TimeS, "solver": slow[i].Solver})
+	}
+	cov["slowest_obligations"] = slowest
+	cov["per_obligation_timeout_s"] = r.timeout
 	if knownFailed > 0 {
 		cov["explanation"] = fmt.Sprintf("%d obligations generated; %d of them fail and are listed as open known findings (reported as KNOWN-FINDING lines, see known_findings); the remaining %d are the proof-level claim and all of them are discharged", proofObls, knownFailed, claimedObls)
 	}
